@@ -916,7 +916,8 @@ class t2listing(object):
                     # now at the start of that table, which is read next:
                     tablename = next_tablename
                     continue
-            last_tablename = tablename
+            # (skipped tables are not in the list of table names)
+            if tablename in self._tablenames: last_tablename = tablename
             tablename = self.next_table()
 
     def read_tables_TOUGHplus(self):
